@@ -219,6 +219,84 @@ def run_entries(ctx, case):
     ctx.case(case, nt, labels=(f"N={len(case['entries'])}", f"fill={case['fill'][0]}"))
 
 
+def enum_container_entries(tier):
+    """the table entry as the CONTAINER writes it (add_block / replace_block / a setter), for blocks whose dates are given as naive local
+    datetimes and as timezone-aware ones in several zones: bytes 16..27 of the entry are the instants, whatever zone they were said in"""
+    for zone in ("naive", "utc", "+05:30", "-08:00", "+14:00", "-00:01"):
+        for sec in (0, 1, 86399, 1_600_000_000, 1_635_643_800, 2 ** 31 - 90000):
+            for via in ("add_block", "replace_block", "setter"):
+                for kind in ("events", "emg", "data3D"):
+                    if (sec + len(zone) + len(via)) % 2 and kind != "events":
+                        continue
+                    yield {"zone": zone, "sec": sec, "via": via, "kind": kind}
+
+
+def run_container_entries(ctx, case):
+    import struct
+    from datetime import datetime, timedelta, timezone
+
+    from basictdf import Tdf
+
+    from .. import container
+    from .c07 import labelled_spec
+
+    zone, sec, via, kind = case["zone"], case["sec"], case["via"], case["kind"]
+
+    def when(s):
+        if zone == "naive":
+            return dt_of(s)
+        if zone == "utc":
+            return datetime.fromtimestamp(s, timezone.utc)
+        sign = -1 if zone[0] == "-" else 1
+        hh, mm = zone[1:].split(":")
+        return datetime.fromtimestamp(s, timezone(sign * timedelta(hours=int(hh), minutes=int(mm))))
+
+    d = env.fresh_dir()
+    try:
+        path = os.path.join(d, "e.tdf")
+        Tdf.new(path)
+        spec = labelled_spec(kind, 2)
+        blk = specs.build(spec)
+        blk.creation_date, blk.last_modification_date = when(sec), when(sec + 61)
+
+        def store():
+            with Tdf(path).allow_write() as w:
+                if via != "add_block":
+                    first = specs.build(labelled_spec(kind, 1))
+                    w.add_block(first, "first")
+                if via == "add_block":
+                    w.add_block(blk, "the comment")
+                elif via == "replace_block":
+                    w.replace_block(blk, "the comment")
+                else:
+                    setattr(w, container.SETTERS[kind], blk)
+        ok, _ = ctx.must(store, f"container-entry/{via}", f"storing a {kind} block whose dates are given in zone {zone}")
+        if ok:
+            data = open(path, "rb").read()
+            parsed = reftdf.parse_container(data)
+            lv = reftdf.live(parsed)
+            if len(lv) != 1:
+                ctx.fail(f"container-entry/{via}/live-count", f"{len(lv)} live entries after {via}")
+            else:
+                i, e = lv[0]
+                raw = data[64 + 288 * i:64 + 288 * (i + 1)]
+                payload = specs.lib_write(blk, sink="fresh")
+                want = {"type": reftdf.TYPE_CODE[kind], "format": spec["format"], "offset": 64 + 288 * parsed["nEntries"], "size": len(payload), "cdate": sec, "mdate": sec + 61}
+                got = dict(zip(("type", "format", "offset", "size", "cdate", "mdate"), struct.unpack("<IIiiii", raw[:24])))
+                dd = specs.first_diff(got, want)
+                if dd:
+                    ctx.fail(f"container-entry/{via}/field-{dd[0].strip('/')}", f"{kind} stored by {via} with dates said in zone {zone}: entry field {dd[0]} is {dd[1]}, the layout "
+                                                                               f"(and the instant {sec}) asks for {dd[2]}")
+                comment = "the comment" if via != "setter" else "first"
+                if raw[32:] != cp1252.field(comment, 256):
+                    ctx.fail(f"container-entry/{via}/comment-field", f"{kind} stored by {via}: the 256-byte comment field is not {comment!r} followed by zeros")
+                if raw[28:32] != b"\x00" * 4:
+                    ctx.fail(f"container-entry/{via}/pad-word", f"{kind} stored by {via}: the entry's pad word is {raw[28:32].hex()}")
+    finally:
+        env.rmdir(d)
+    ctx.case(case, zone != "naive", labels=["container-entry", via, "zone=" + zone])
+
+
 def files_strategy(tier):
     @st.composite
     def cases(draw):
@@ -393,6 +471,12 @@ SUBS = [
         rule="generated valid blocks: library bytes == reference encoder bytes, byte for byte"),
     Sub("decode", run_decode, strategy=_dec_strategy, budget=(1500, 40000), shards=(4, 16),
         rule="reference-encoded bytes with zero / random / 0xFF / text-like don't-care bytes: library decode == spec, consumed == length"),
+    Sub("entries-through-the-container", run_container_entries, kind="enum", enumerate=enum_container_entries, shards=(4, 8),
+        rule="the table entry as add_block / replace_block / a setter write it, for blocks whose creation / modification dates are naive local datetimes or aware ones in UTC, "
+             "+05:30, -08:00, +14:00, -00:01 x 6 instants (epoch, the repeated hour of a DST zone, the top of the 31-bit range): every numeric field, the pad word and the "
+             "comment field against the layout; finite, enumerated", nontrivial_required=False),
+    Sub("entries-through-the-container-other-zone", run_container_entries, kind="enum", enumerate=enum_container_entries, shards=(4, 8), tz="CET-1CEST,M3.5.0,M10.5.0/3",
+        rule="the same with the process in a zone that is not UTC and has daylight saving time", nontrivial_required=False),
     Sub("header-entries", run_entries, strategy=entries_strategy, budget=(400, 10000), shards=(2, 16),
         rule="generated header/entry field values: reference bytes read by Tdf/TdfEntry; TdfEntry._write vs reference bytes"),
     Sub("files", run_files, strategy=files_strategy, budget=(120, 3000), shards=(2, 16),
